@@ -202,6 +202,12 @@ class Replayer:
     def apply(self, c):
         k = c["call"]
         p = self.p(c["path"])
+        if k in ("open", "write", "copy"):
+            # one file, one offset: strace shows the path as the program spelled it in open() and resolved in the fd annotation
+            # of write(); with a linked blobs/ or manifests/ directory the two differ
+            p = os.path.realpath(p)
+            if "src" in c:
+                c = dict(c, src=os.path.realpath(self.p(c["src"])))
         if k == "open":
             flags = os.O_WRONLY | os.O_CREAT | (os.O_TRUNC if c["trunc"] else 0) | (os.O_EXCL if c["excl"] else 0)
             os.close(os.open(p, flags, 0o644))
@@ -249,7 +255,7 @@ class Replayer:
         elif k == "chmod":
             os.chmod(p, c["mode"])
         elif k == "copy":
-            s = self.p(c["src"])
+            s = c["src"] if isinstance(c["src"], bytes) and c["src"].startswith(self.b) else self.p(c["src"])
             io_ = self.off.get((s, "in"), 0)
             data = open(s, "rb").read()[io_:io_ + c["n"]]
             o = self.off.get(p, 0)
@@ -710,7 +716,7 @@ def gen_group(rng, fx, klass, state):
             op["license"] = rng.choice(c04.LICENSES)
         return [op]
     if klass == "create-files":
-        k = rng.choice(["g0", "g1", "gt", "gz", "g01", "ga", "g0x"])
+        k = rng.choice(["g0", "g1", "gt", "gz", "g01", "ga", "g0x", "c8", "ckv"])
         b = fx.data[k]
         op = {"op": "create", "name": target(), "files": {"model.gguf": "sha256:" + sha(b)}, "_fx": k}
         for kk, pool in (("system", c04.SYSTEMS), ("template", c04.TEMPLATES), ("parameters", c04.PARAMS)):
